@@ -339,6 +339,52 @@ func deepCopy(v value, memo map[*value]*value) value {
 	return v
 }
 
+// isDefaultMessage: every field of the (concrete) message value has its
+// proto3 default: zero numbers, empty strings, empty or nil repeated fields
+// and maps, nil sub-messages.
+func isDefaultMessage(v value) bool {
+	switch v := v.(type) {
+	case nil:
+		return true
+	case structure:
+		for _, f := range v {
+			if !isDefaultMessage(f) {
+				return false
+			}
+		}
+		return true
+	case []value:
+		return len(v) == 0
+	case *omap:
+		return v == nil || v.len() == 0
+	case *value:
+		return v == nil
+	case iface:
+		return v.t == nil
+	case string:
+		return v == ""
+	case bool:
+		return !v
+	case int:
+		return v == 0
+	case int32:
+		return v == 0
+	case int64:
+		return v == 0
+	case uint32:
+		return v == 0
+	case uint64:
+		return v == 0
+	case uint8:
+		return v == 0
+	case float32:
+		return v == 0
+	case float64:
+		return v == 0
+	}
+	return false
+}
+
 func init() {
 	// The marshalled form is 8 bytes: a 4-byte magic and a 4-byte token that
 	// identifies the stored message. Copies of the bytes (through raftpb, the
@@ -351,6 +397,10 @@ func init() {
 		pv, ok := m.v.(*value)
 		if !ok || pv == nil {
 			return tuple{[]value(nil), mkErrorValue(fr.i, "proto: Marshal called with nil")}
+		}
+		if isDefaultMessage(*pv) {
+			// proto3: a message whose fields all have their default values encodes to nothing
+			return tuple{[]value{}, iface{}}
 		}
 		codecSeq++
 		codecByToken[codecSeq] = &codecEntry{t: m.t, msg: deepCopy(*pv, map[*value]*value{})}
@@ -406,6 +456,19 @@ func init() {
 		ext(p+"Unmarshal", unmarshal)
 		ext(p+"CompactTextString", func(fr *frame, a []value) value { return "pb" })
 		ext(p+"Size", func(fr *frame, a []value) value { return 8 })
+		// Clone: a deep copy of the message (the real one walks the value by reflection)
+		ext(p+"Clone", func(fr *frame, a []value) value {
+			m, ok := a[0].(iface)
+			if !ok || m.t == nil {
+				return a[0]
+			}
+			pv, ok := m.v.(*value)
+			if !ok || pv == nil {
+				return a[0]
+			}
+			var cell value = deepCopy(*pv, map[*value]*value{})
+			return iface{t: m.t, v: &cell}
+		})
 	}
 }
 
